@@ -37,6 +37,8 @@ def conforms(value, kind, depth=0):
         return None if _is_int(value) or isinstance(value, str) else f"{t} is not Union[int, str]"
     if kind == "lit":
         return None if value in ("a", "b") and isinstance(value, str) else f"{value!r} not in Literal['a','b']"
+    if kind == "litint":
+        return None if type(value) is int and value in (1, 2) else f"{value!r} is not Literal[1, 2]"
     if kind == "tup2":
         ok = isinstance(value, tuple) and len(value) == 2 and _is_int(value[0]) and isinstance(value[1], str)
         return None if ok else f"{value!r} is not Tuple[int, str]"
@@ -141,7 +143,7 @@ class C03(HistoryCheck):
     LEVEL = "exploration"
     RUNS = {"quick": 1500, "thorough": 30000}
     PROFILE = {"allow_frozen": False, "allow_class_dnc": False, "allow_bad_defaults": True,
-               "kinds": ALL_KINDS + ["tup2", "tupvar"]}  # (tuple generics are named by the statement)
+               "kinds": ALL_KINDS + ["tup2", "tupvar", "litint"]}  # (tuple generics are named by the statement)
     OPGEN = {"p_bad": 0.45, "p_inplace": 0.5, "p_nested_target": 0.2,
              "weights": {"new": 3, "scalar": 7, "element": 10, "toplevel": 4, "set": 4, "del": 1, "get": 0.3,
                          "deepcopy": 0.3, "nested": 2}}
